@@ -197,3 +197,60 @@ func (s tripSearch) Search(ctx context.Context, sctx *search.Context, b *board.B
 	}
 	return s.inner.Search(ctx, sctx, b, depth)
 }
+
+// C12/iterhalt: an iterative analysis halted through Handle.Halt in the middle of an iteration.
+// When the analysis says it is over (its stream has closed), the board it was launched on is back
+// in the state it was handed over in - nobody is still moving pieces on it.
+type iterHaltCase struct {
+	searchCase     // Depth unused
+	DelayUS    int `json:"delay_us"`
+}
+
+var checkC12IterHalt = def("C12/iterhalt", func(c iterHaltCase) error {
+	b, g, cfg, err := setupSearch(c.searchCase)
+	if err == errDiscard {
+		stats.Case("C12/iterhalt", 0, false, "discarded-sticky-draw-root")
+		return nil
+	}
+	if err != nil {
+		return err
+	}
+	inner, _ := cfg.make(c.Param)
+	lb := b.Fork()
+	before := takeSnap(lb)
+	h, out := (&searchctl.Iterative{Root: inner}).Launch(context.Background(), lb, search.NoTranspositionTable{}, eval.Random{}, searchctl.Options{})
+	if c.DelayUS > 0 {
+		time.Sleep(time.Duration(c.DelayUS) * time.Microsecond)
+	}
+	pv := h.Halt()
+	deadline := time.After(liveness)
+	reports := 0
+loop:
+	for {
+		select {
+		case _, ok := <-out:
+			if !ok {
+				break loop
+			}
+			reports++
+		case <-deadline:
+			return fmt.Errorf("%s at %s: the stream does not close after Halt()", c.Config, g.Cur().FEN())
+		}
+	}
+	for k := 0; k < 3; k++ {
+		if d := diffSnap(takeSnap(lb), before, !g.Cur().Pos.HasLegal()); d != "" {
+			return fmt.Errorf("%s at %s, halted %d us after launch (Halt() returned depth %d): the analysis is over (stream closed) but the board it was launched on reports %s", c.Config, g.Cur().FEN(), c.DelayUS, pv.Depth, d)
+		}
+	}
+	stats.Case("C12/iterhalt", stats.FP(c.FEN, fmt.Sprint(c.Moves), c.Config, c.Param, c.DelayUS), true, "cfg:"+c.Config, fmt.Sprintf("halted-at-depth:%d", min(pv.Depth, 5)))
+	return nil
+})
+
+func TestC12_iterhalt(t *testing.T) {
+	runRapid(t, "C12/iterhalt", 4000, func(t *rapid.T) iterHaltCase {
+		return iterHaltCase{searchCase: genSearchCase(t, searchConfigs), DelayUS: rapid.SampledFrom([]int{0, 0, 20, 100, 500, 2000}).Draw(t, "delay")}
+	}, func(c iterHaltCase) error {
+		stats.Sample("C12/iterhalt", c)
+		return checkC12IterHalt(c)
+	})
+}
